@@ -163,12 +163,14 @@ PROPS = {    "C01": {
                              ("newest-3runs", "newest3", {"runs": 3, "names": "a, ab, 'a b'", "start_offsets": "6 classes, third run before the first"}),
                              ("byid", "byid", {"runs": 2, "ids": "sharing their first 8 characters", "update": "with/without manual update", "second_run": "closed or still open"}),
                              ("isolation", "isolation", {"dags": 2, "operations_on_the_other_dag": "remove-all, rename, update, new run"}),
-                             ("rename", "rename", {"runs": 2, "names": "every ordered pair of the 8 names"}))
+                             ("rename", "rename", {"runs": 2, "names": "every ordered pair of the 8 names"}),
+                             ("retention", "retention", {"runs": 2, "retention_days": "0, 1, 2", "file_age": "0h, 23h, 25h, 47h, 49h (aged with os.Chtimes)", "names": "a, ab, 'a b'"}),
+                             ("today", "today", {"runs": "none | yesterday | today | both", "today_mode": "on"}))
         ],
         "assumptions": ["file-system model (DESIGN 3.2); instants are concrete representatives (offset classes), file names therefore concrete: filepath.Glob / regexp / sort are evaluated exactly on them",
                         "status payloads are opaque JSON tokens (json.Marshal/Unmarshal registry model); the status cache is the real filecache executed from source",
                         "two runs started in the same millisecond whose request ids share their first 8 characters map to one file: outside the claim"],
-        "outside_claim": COMMON_OUTSIDE + ["retention by age (RemoveOld with old files), latest-status 'today' mode, more than 3 runs per DAG", "arbitrary symbolic DAG names (menu only)", "interleaved operation sequences longer than the ones listed"],
+        "outside_claim": COMMON_OUTSIDE + ["more than 3 runs per DAG, negative retention", "arbitrary symbolic DAG names (menu only)", "interleaved operation sequences longer than the ones listed"],
     },
     "C07": {
         "obligations": [
